@@ -634,11 +634,67 @@ class Interp:
         if trait == "std::iter::Iterator" and name in ("for_each", "try_for_each") and len(args) == 2 \
                 and isinstance(strip_casts(args[1]), tuple) and strip_casts(args[1])[0] == "closure" and not self.ctx.reader:
             lid = self.ctx.loop_id()
-            desc = self.iter_desc(args[0], lid)
+            # xs.map(f).for_each(g) is `for x in xs { g(f(x)) }`
+            src_it = args[0]
+            mapper = None
+            s0 = strip_casts(src_it)
+            if isinstance(s0, tuple) and s0 and s0[0] == "map" and isinstance(strip_casts(s0[2]), tuple) \
+                    and strip_casts(s0[2])[0] == "closure":
+                src_it, mapper = s0[1], s0[2]
+            desc = self.iter_desc(src_it, lid)
             pev = []
             na = len(self.assume)
             self.assume.append(("range", ("idx", lid), desc[2], desc[3]) if desc[0] == "range" else ("elemof", ("elem", lid), desc[2]))
-            self.inline_closure(args[1], [desc_var(desc)], pev, site)
+            if mapper is not None and not self.ctx.track_fields:
+                item = self.inline_closure(mapper, [desc_var(desc)], pev, site)
+                self.inline_closure(args[1], [item], pev, site)
+                del self.assume[na:]
+                ev.append(("loop", desc, pev))
+                if name == "try_for_each":
+                    return ("agg", "std::result::Result", "Ok", (("agg", "tuple", None, ()),))
+                return ("agg", "tuple", None, ())
+            if self.ctx.track_fields:
+                # fields written by the closure are loop carried: discover them, find their per-iteration steps, and
+                # leave `initial + SUM(step)` behind (same treatment as a `for` loop)
+                pre = dict(self.fields)
+                self.inline_closure(args[1], [desc_var(desc)], [], site)
+                keys = [k for k in self.fields if self.fields.get(k) != pre.get(k)]
+                self.fields.clear()
+                self.fields.update(pre)
+                for k in keys:
+                    self.fields[k] = ("lc", lid, k)
+                self.inline_closure(args[1], [desc_var(desc)], [], site)
+                after = dict(self.fields)
+                steps = {k: field_step(after.get(k), ("lc", lid, k), lid) for k in keys}
+                itno = ("idx", lid) if desc[0] != "range" else mk_bin("Sub", ("idx", lid), desc[2])
+                closed = {k: mk_bin("Add", pre.get(k, self.field_default(k)), mk_bin("Mul", itno, st))
+                          for k, st in steps.items() if is_c(st) and st[1] != 0}
+
+                def close(e):
+                    if not isinstance(e, tuple) or not e:
+                        return e
+                    if e[0] == "lc" and len(e) > 2 and e[1] == lid and e[2] in closed:
+                        return closed[e[2]]
+                    return tuple(close(x) if isinstance(x, tuple) else x for x in e)
+                for k in keys:
+                    if steps.get(k) is None and closed:
+                        steps[k] = field_step(close(after.get(k)), ("lc", lid, k), lid)
+                self.fields.clear()
+                self.fields.update(pre)
+                for k in keys:
+                    self.fields[k] = closed.get(k, ("partial", lid, k))
+                self.inline_closure(args[1], [desc_var(desc)], pev, site)
+                self.fields.clear()
+                self.fields.update(pre)
+                for k in keys:
+                    st = steps.get(k)
+                    init = pre.get(k, self.field_default(k))
+                    if st is None:
+                        self.fields[k] = ("?", "field after internal iteration")
+                    elif not is_c(st, 0):
+                        self.fields[k] = mk_bin("Add", init, ("sumloop", desc, close(st) if closed else st))
+            else:
+                self.inline_closure(args[1], [desc_var(desc)], pev, site)
             del self.assume[na:]
             ev.append(("loop", desc, pev))
             if name == "try_for_each":
@@ -698,9 +754,43 @@ class Interp:
             return ("case", args[0], ((0, NONE), (1, some(args[1]))))
         if re.search(r"^core::bool::<impl bool>::then$", fn["def"]) and len(args) == 2 and is_clo(args[1]):
             return ("case", args[0], ((0, NONE), (1, some(call(args[1], [])))))
+        g = fn.get("gargs") or []
+        # integer TryFrom / TryInto: Ok(value) iff the value fits the target type
+        if fn["def"] in ("std::convert::TryInto::try_into", "std::convert::TryFrom::try_from") and len(args) == 1 and len(g) >= 2:
+            src_t, dst_t = (g[0], g[1]) if fn["def"].endswith("try_into") else (g[1], g[0])
+            if src_t in INT_BITS and dst_t in INT_BITS:
+                lo, hi = (0, (1 << INT_BITS[dst_t]) - 1) if dst_t.startswith("u") else \
+                    (-(1 << (INT_BITS[dst_t] - 1)), (1 << (INT_BITS[dst_t] - 1)) - 1)
+                fits = ("bin", "Le", args[0], C(hi))
+                okv = ("agg", "std::result::Result", "Ok", (("cast", dst_t, args[0], src_t),))
+                errv = ("agg", "std::result::Result", "Err", (("?", "TryFromIntError"),))
+                v = ("case", fits, ((0, errv), (1, okv)))
+                if not src_t.startswith("u") or lo != 0:
+                    v = ("case", ("bin", "Ge", args[0], C(lo)), ((0, errv), (1, v)))
+                return v
+        if fn["def"] == "std::result::Result::<T, E>::ok" and len(args) == 1:
+            def res_case(r):
+                r0 = strip_casts(r)
+                if isinstance(r0, tuple) and r0 and r0[0] == "agg" and r0[2] == "Ok":
+                    return some(r0[3][0])
+                if isinstance(r0, tuple) and r0 and r0[0] == "agg" and r0[2] == "Err":
+                    return NONE
+                if isinstance(r0, tuple) and r0 and r0[0] == "case":
+                    return ("case", r0[1], tuple((lab, res_case(x)) for lab, x in r0[2]))
+                return None
+            return res_case(args[0])
         if not re.search(r"^std::option::Option::<", fn["def"]):
             return None
         a = args
+        if name == "flatten" and len(a) == 1:
+            return self.opt_case(a[0], lambda: NONE, lambda v: v)
+        if name == "map" and len(a) == 2 and isinstance(strip_casts(a[1]), tuple) and strip_casts(a[1])[0] == "fn":
+            # Option::map(Some(x), Type::Variant)  (a tuple-variant constructor used as a function)
+            ctor = str(strip_casts(a[1])[1])
+            owner = ctor.rsplit("::", 1)[0]
+            adt = self.facts.adts.get(owner)
+            if adt and any(vr["name"] == ctor.rsplit("::", 1)[1] for vr in adt["variants"]):
+                return self.opt_case(a[0], lambda: NONE, lambda v: some(("agg", owner, ctor.rsplit("::", 1)[1], (v,))))
         if name in ("as_ref", "as_mut", "as_deref", "cloned", "copied", "take") and len(a) == 1:
             return a[0]
         if name == "or" and len(a) == 2:
@@ -756,7 +846,7 @@ class Interp:
         if cid is None or fn.get("res_kind") in ("unresolved", "virtual"):
             return None
         cb = self.facts.bodies[cid]
-        if len(cb.blocks) > 60 or cb.argc != len(args):
+        if len(cb.blocks) > 160 or cb.argc != len(args):
             return None
         na = len(self.ctx.asserts)
         ng = len(self.ctx.aggs)
@@ -934,8 +1024,14 @@ class Interp:
         elif not labs and t["else"] == tgt and len(t["vals"]) == 1:
             # two-way switch: the other label
             other = t["vals"][0][0]
-            if t.get("dty") == "bool" or other in (0, 1):
-                self.assume_eq(sc, 1 - other if other in (0, 1) else None, ne=other)
+            # only a bool (or a two-variant discriminant, typed isize) has "the other value"; for an integer scrutinee the
+            # else edge only says `!= other`
+            two_valued = t.get("dty") == "bool" or (t.get("dty") == "isize" and isinstance(strip_casts(sc), tuple)
+                                                   and strip_casts(sc)[0] == "discr")
+            if two_valued and other in (0, 1):
+                self.assume_eq(sc, 1 - other, ne=other)
+            elif t.get("dty") is None and other in (0, 1):
+                self.assume_eq(sc, 1 - other, ne=other)
             else:
                 self.assume.append(("ne", sc, C(other)))
 
@@ -969,6 +1065,9 @@ class Interp:
             self.assume_ok(r[1])
         elif r[0] == "call" and re.search(self.ctx.verify_fn, r[1].split("::<")[0]) and r[2]:
             self.assume.append(("cond", r[2][0], 1))
+        elif r[0] == "call":
+            # an opaque fallible call whose result was Ok on this path
+            self.assume.append(("okcall", r[1], r[2]))
         elif r[0] == "case":
             oks = [lab for lab, v in r[2] if not (isinstance(v, tuple) and v[0] == "agg" and v[2] in ("Err", "None"))]
             errs = [lab for lab, v in r[2] if isinstance(v, tuple) and v[0] == "agg" and v[2] in ("Err", "None")]
@@ -1451,8 +1550,9 @@ class Interp:
 
     def iter_desc(self, it, lid):
         x = it
-        while isinstance(x, tuple) and x[0] == "iter":
-            x = x[1]
+        while isinstance(x, tuple) and x and (x[0] == "iter" or (
+                x[0] == "call" and re.search(r"Iterator>?::(copied|cloned|by_ref)(::<.*>)?$", x[1]) and x[2])):
+            x = x[1] if x[0] == "iter" else x[2][0]
         if isinstance(x, tuple) and x[0] == "agg" and x[1] == "std::ops::Range":
             return ("range", lid, x[3][0], x[3][1])
         if isinstance(x, tuple) and x[0] in ("map", "?"):
@@ -1490,6 +1590,35 @@ class FindingSignal(Exception):
     def __init__(self, kind, msg):
         Exception.__init__(self, msg)
         self.kind = kind
+
+
+def field_step(v, lc, lid):
+    """Per-iteration increment of a loop-carried field value v (in terms of its value lc at the start of the iteration)."""
+    islc = lambda e: isinstance(e, tuple) and len(e) > 1 and e[0] == "lc" and e[1] == lid
+    if isinstance(v, tuple) and v and v[0] == "ovf":
+        v = v[1]
+    if v == lc:
+        return C(0)
+    if isinstance(v, tuple) and v and v[0] == "bin" and v[1] == "Add":
+        if v[2] == lc and not mentions(v[3], islc):
+            return v[3]
+        if v[3] == lc and not mentions(v[2], islc):
+            return v[2]
+        inner = field_step(v[2], lc, lid)
+        if inner is not None and not mentions(v[3], islc):
+            return mk_bin("Add", inner, v[3])
+    if isinstance(v, tuple) and v and v[0] == "case" and evalc(v[1]) is not None:
+        d = evalc(v[1])
+        for lab, x in v[2]:
+            if d in (lab if isinstance(lab, tuple) else (lab,)):
+                return field_step(x, lc, lid)
+    if isinstance(v, tuple) and v and v[0] == "case" and not mentions(v[1], islc):
+        arms = [(lab, field_step(x, lc, lid)) for lab, x in v[2]]
+        if all(a[1] is not None for a in arms):
+            if all(a[1] == arms[0][1] for a in arms):
+                return arms[0][1]
+            return ("case", v[1], tuple(arms))
+    return None
 
 
 def desc_var(desc):
